@@ -1,6 +1,8 @@
 import Dashu.Proofs.NT.GcdExt
 import Dashu.Proofs.NT.BinGcd
 import Dashu.Proofs.NT.Lehmer
+import Dashu.Proofs.NT.LehmerComplete
+import Dashu.Proofs.NT.LehmerExt
 import Dashu.Proofs.NT.Root
 import Dashu.Proofs.NT.Log
 import Dashu.Proofs.NT.Log2Table
@@ -25,9 +27,31 @@ theorem gcd_prim_spec (a b : Nat) :
     gcdPrim a b = if a = 0 ∧ b = 0 then .error .gcdZeroZero else .ok (Nat.gcd a b) :=
   gcdPrim_spec a b
 
-/-- `gcd` over every size class (inline/heap mixes, one operand zero, equal operands):
-    `Nat.gcd`, panicking exactly for `(0, 0)` -/
-theorem gcd_spec (W : Nat) (a b : Nat) :
+/-- `(a | b).trailing_zeros()` (as the primitive gcd / gcd_ext compute the common power of two) is the
+    smaller of the two trailing-zero counts -/
+theorem trailing_zeros_or (a b : Nat) (ha : 0 < a) (hb : 0 < b) :
+    trailingZeros (a ||| b) = min (trailingZeros a) (trailingZeros b) :=
+  tz_or ha hb
+
+/-- `gcd` over every size class (inline/heap mixes, one operand zero, equal operands), **every kernel
+    mirrored** — primitive binary gcd, reduction by a word / double word, and the Lehmer loop of
+    `gcd_in_place` for two multi-word operands: `Nat.gcd`, panicking exactly for `(0, 0)` -/
+theorem gcd_spec (W : Nat) (hW : 0 < W) (a b : Nat) :
+    gcdReprM W a b = if a = 0 ∧ b = 0 then .error .gcdZeroZero else .ok (Nat.gcd a b) :=
+  gcdReprM_spec W hW a b
+
+/-- … and for signed operands (`IBig`, mixed forms): the non-negative gcd of the magnitudes -/
+theorem gcd_int_spec (W : Nat) (hW : 0 < W) (a b : Int) :
+    gcdInt W a b = if a = 0 ∧ b = 0 then .error .gcdZeroZero else .ok (Int.gcd a b) := by
+  unfold gcdInt
+  rw [gcdReprM_spec W hW]
+  have : (a.natAbs = 0 ∧ b.natAbs = 0) ↔ (a = 0 ∧ b = 0) := by omega
+  by_cases h : a = 0 ∧ b = 0
+  · rw [if_pos h, if_pos (this.2 h)]
+  · rw [if_neg h, if_neg (fun h' => h (this.1 h'))]; rfl
+
+/-- the same dispatch with the Lehmer kernel replaced by its specification (kept for comparison) -/
+theorem gcd_spec_frontier (W : Nat) (a b : Nat) :
     gcdRepr W a b = if a = 0 ∧ b = 0 then .error .gcdZeroZero else .ok (Nat.gcd a b) :=
   gcdRepr_spec W gcdPrim_spec a b
 
@@ -63,10 +87,39 @@ theorem gcd_ext_bezout (W : Nat) (kernel : Nat → Nat → Nat × Nat × Bool)
         g = Int.gcd a b ∧ s * a + t * b = g) :=
   gcdExtInt_spec W kernel hk a b
 
-/-- … in particular for the kernel the driver runs -/
+/-- **`lehmer::gcd_ext_in_place` is correct.**  The mirrored loop — leading-word guess, Euclidean
+    fallback with `t0 += q·t1`, `lehmer_step` with `lehmer_ext_step` on the unsigned coefficients, the
+    `swapped` flag as the sign, and the final single-word `gcd_ext` — always returns for `0 < rhs < lhs`,
+    and `(g, |b|, sign)` is the gcd with `lhs ∣ g − rhs·b`. -/
+theorem lehmer_gcd_ext_correct (W : Nat) (hW : 0 < W) (lhs rhs : Nat) (h0 : 0 < rhs) (hlt : rhs < lhs) :
+    ∃ res, lehmerExt W lhs rhs = .ok res ∧ LehmerExtContract lhs rhs res :=
+  lehmerExt_correct W hW lhs rhs h0 hlt
+
+/-- **`gcd_ext` with every kernel mirrored** (what the driver runs): for signed operands of every
+    size class `s·a + t·b = g = gcd(|a|, |b|)`; only `(0, 0)` panics. -/
+theorem gcd_ext_spec (W : Nat) (hW : 0 < W) (a b : Int) :
+    (a = 0 ∧ b = 0 → gcdExtInt W (lehmerExtKernel W) a b = .error .gcdZeroZero) ∧
+    (¬ (a = 0 ∧ b = 0) → ∃ g s t, gcdExtInt W (lehmerExtKernel W) a b = .ok (g, s, t) ∧
+        g = Int.gcd a b ∧ s * a + t * b = g) :=
+  gcdExtInt_spec W (lehmerExtKernel W) (fun l r hr hlt => by
+    obtain ⟨res, h1, h2⟩ := lehmerExt_correct W hW l r hr hlt
+    unfold lehmerExtKernel; rw [h1]; exact h2) a b
+
+/-- … and for the plain-Euclid stand-in kernel of earlier rounds -/
 theorem gcd_ext_bezout_driver (W : Nat) (a b : Int) (h : ¬ (a = 0 ∧ b = 0)) :
     ∃ g s t, gcdExtInt W lehmerExtFrontier a b = .ok (g, s, t) ∧ g = Int.gcd a b ∧ s * a + t * b = g :=
   (gcdExtInt_spec W lehmerExtFrontier (fun _ _ hr hlt => lehmerExtFrontier_contract hr hlt) a b).2 h
+
+/-- the hypotheses of `lehmer_gcd_ext_correct` are satisfiable on multi-word operands -/
+example : ∃ res, lehmerExt 64 (2 ^ 200 + 12345) (3 ^ 120 + 7) = .ok res ∧
+    LehmerExtContract (2 ^ 200 + 12345) (3 ^ 120 + 7) res :=
+  lehmer_gcd_ext_correct 64 (by decide) _ _ (by decide +kernel) (by decide +kernel)
+
+/-- concrete run through the Lehmer loop (4-word × 3-word operands, negative second operand) -/
+example : (match gcdExtInt 64 (lehmerExtKernel 64) (2 ^ 200 + 12345) (-(3 ^ 120 + 7)) with
+    | .ok (g, s, t) => decide (s * (2 ^ 200 + 12345) + t * (-(3 ^ 120 + 7)) = g ∧ g = 1 ∧ t ≠ 0)
+    | .error _ => false) = true := by
+  decide +kernel
 
 /-- Lehmer step: whatever quotients `lehmer_guess` commits, the cofactor matrix keeps determinant 1 -/
 theorem lehmer_guess_det (lim fuel xbar ybar : Nat) :
@@ -83,12 +136,25 @@ theorem lehmer_step_preserves_gcd (lim fuel xbar ybar : Nat) (x y : Int) :
   intro r
   exact lehmerStep_gcd x y _ _ _ _ (lehmerGuess_det lim fuel xbar ybar 1 0 0 1 (by norm_num))
 
+/-- the cofactors `lehmer_guess(_dword)` commits from the leading words (`highest_word_normalized`,
+    `highest_dword_normalized`: both operands truncated at one common bit position) never make a step
+    of the full operands negative -/
+theorem lehmer_step_nonneg (W x y : Nat) (hW : 0 < W) (hxy : y ≤ x) (hy : 2 < wordLen W y) :
+    let r := lehmerCofactors W x y
+    0 ≤ (r.1 : Int) * x - (r.2.1 : Int) * y ∧ 0 ≤ (r.2.2.2 : Int) * y - (r.2.2.1 : Int) * x :=
+  lehmerCofactors_nonneg hW hxy hy
+
 /-- the whole mirrored loop of `lehmer::gcd_in_place` (leading-word alignment, `lehmer_guess(_dword)`,
     Euclidean fallback when the guess fails, `lehmer_step`, final word / double-word gcd) is **sound**:
-    every value it returns is the gcd, whatever cofactors the guess commits.  (That it always returns —
-    no step goes negative, fuel suffices — is the progress half; the driver checks it on every call.) -/
+    every value it returns is the gcd, whatever cofactors the guess commits -/
 theorem lehmer_gcd_sound (W lhs rhs g : Nat) (h : lehmerGcd W lhs rhs = .ok g) : g = Nat.gcd lhs rhs :=
   lehmerGcd_sound W lhs rhs g h
+
+/-- … and **complete**: it always returns (no step goes negative, every iteration decreases `x + y`),
+    so `gcd_in_place` computes the gcd -/
+theorem lehmer_gcd_correct (W : Nat) (hW : 0 < W) (lhs rhs : Nat) (h : rhs ≤ lhs) :
+    lehmerGcd W lhs rhs = .ok (Nat.gcd lhs rhs) :=
+  lehmerGcd_correct W hW lhs rhs h
 
 /-- non-vacuity: the mirrored loop returns on a pair of 5-word operands with a common factor -/
 example : lehmerGcd 64 ((2 ^ 64 + 1) * (2 ^ 250 + 12345)) ((2 ^ 64 + 1) * (2 ^ 200 + 7)) = .ok (2 ^ 64 + 1) := by
@@ -227,6 +293,17 @@ theorem log2_wide_table_sound (x : Nat) (hbits : 16 < bitLen x) :
 
 example : IsRoot (2 ^ 191 + 12345) 2 (sqrtRemRepr 64 true (2 ^ 191 + 12345)).1 :=
   (sqrt_rem_spec 64 (by decide) (by decide) _).1
+
+-- concrete instances of the theorems above (non-vacuity; evaluated by the kernel)
+example : nthRootRepr 64 true (10 ^ 30) 7 = .ok 19306 := by decide +kernel
+example : cbrtRemRepr 64 true (10 ^ 30 + 7) = .ok (10 ^ 10, 7) := by decide +kernel
+example : logRepr 64 true (fun _ _ => 1) (10 ^ 40 + 1) 10 = .ok (40, 10 ^ 40) := by decide +kernel
+example : removeRepr (3 * 12 ^ 5) 12 = some (5, 3) := by decide +kernel
+example : gcdReprM 64 (6 * (2 ^ 200 + 1)) (6 * (2 ^ 130 + 7)) = .ok (Nat.gcd (6 * (2 ^ 200 + 1)) (6 * (2 ^ 130 + 7))) := by
+  decide +kernel
+/-- the hypotheses of `lehmer_step_nonneg` / `log2_wide_table_sound` / `log2_u8_table_sound` are satisfiable -/
+example : (2 : Nat) ^ 128 + 5 ≤ 2 ^ 200 + 1 ∧ 2 < wordLen 64 (2 ^ 128 + 5) ∧ 16 < bitLen 0x12345678 ∧
+    (4 ≤ 201 ∧ 201 < 256 ∧ 201 ≠ 2 ^ (bitLen 201 - 1) ∧ 201 ≠ 3) := by decide
 
 /-- REGRESSION (`nth_root` of zero): the `bits ≤ n ⇒ 1` shortcut as written returns 1 for the radicand 0 -/
 theorem nth_root_zero_asIs_counterexample :
